@@ -135,7 +135,7 @@ def mat_pop(mat, sort=True):
     return tuple(sorted(inds)) if sort else tuple(inds)
 
 
-def make_pg(mat, seed, names="f"):
+def make_pg(mat, seed, names="f", labels=True):
     L = lib()
     _, n, m = mat.shape
     lay, xop = layout(m, seed)
@@ -143,8 +143,8 @@ def make_pg(mat, seed, names="f"):
     phypos = numpy.concatenate([numpy.arange(1, c + 1) * 10 for c in lay]).astype("int64")
     genpos = numpy.concatenate([numpy.arange(c) * 0.25 for c in lay]).astype("float64")
     pg = L["P"](mat=numpy.ascontiguousarray(mat, dtype="int8"),
-                taxa=numpy.array([f"{names}{i}" for i in range(n)], dtype=object),
-                taxa_grp=numpy.zeros(n, dtype="int64"),
+                taxa=numpy.array([f"{names}{i}" for i in range(n)], dtype=object) if labels else None,
+                taxa_grp=numpy.zeros(n, dtype="int64") if labels else None,
                 vrnt_chrgrp=chrgrp, vrnt_phypos=phypos,
                 vrnt_name=numpy.array([f"m{j}" for j in range(m)], dtype=object),
                 vrnt_genpos=genpos, vrnt_xoprob=numpy.array(xop, dtype="float64"))
@@ -189,50 +189,59 @@ def _raise(acc):
 
 
 class Obs:
-    __slots__ = ("n", "usl", "lsl", "g", "pres", "fixed", "key", "bad", "rusl", "rlsl")
+    __slots__ = ("n", "usl", "lsl", "g", "pres", "fixed", "key", "bad", "rusl", "rlsl", "ploidy", "kind")
 
 
 def slack(model):
-    return 1e-12 * (1.0 + 2.0 * float(numpy.abs(model.u_a).sum(0).max()))
+    return 1e-12 * (1.0 + 4.0 * float(numpy.abs(model.u_a).sum(0).max()))
 
 
-def _suffix(n, pres):
-    """S1 class: population size whose 1/(2n) rounds and at least one locus fixed for allele 1."""
-    return S1 if R.reciprocal_rounds(2 * n) and bool((pres == 2).any()) else ""
+def _suffix(n, pres, ploidy=2):
+    """S1 class: population size whose 1/(ploidy*n) rounds and at least one locus fixed for allele 1."""
+    return S1 if R.reciprocal_rounds(ploidy * n) and bool((pres == 2).any()) else ""
 
 
-def attainable(model, pres):
-    """Reference extremes given the alleles present (per locus 2*max / 2*min of {0 if allele 0 present, u if allele
-    1 present}).  Used for the vacuity/coverage flags only (so that they do not depend on the library's answers);
-    the property does not demand that the limits be attained, so this is not an oracle."""
+def attainable(model, pres, ploidy=2):
+    """Reference extremes given the alleles present (per locus ploidy*max / ploidy*min of {0 if allele 0 present, u if
+    allele 1 present}).  Used for the vacuity/coverage flags only (so that they do not depend on the library's
+    answers); the property does not demand that the limits be attained, so this is not an oracle."""
     U = model.u_a
     has0 = ((pres & 1) != 0)[:, None]
     has1 = ((pres & 2) != 0)[:, None]
     hi = numpy.where(has1 & has0, numpy.maximum(U, 0.0), numpy.where(has1, U, 0.0))
     lo = numpy.where(has1 & has0, numpy.minimum(U, 0.0), numpy.where(has1, U, 0.0))
-    return 2.0 * hi.sum(0), 2.0 * lo.sum(0)
+    return float(ploidy) * hi.sum(0), float(ploidy) * lo.sum(0)
 
 
-def observe(model, obj, ctx=None):
-    """usl/lsl/gebv of a live phased object with the model (unscale=False) + bracket + fixed clause."""
+def presence_dosage(Z, ploidy):
+    """per locus presence bits from an (n,p) dosage matrix of the given ploidy (bit 1: allele 0, bit 2: allele 1)."""
+    has1 = (Z > 0).any(axis=0)
+    has0 = (Z < ploidy).any(axis=0)
+    return has0.astype("int8") + 2 * has1.astype("int8")
+
+
+def observe(model, obj, kind="phased", ploidy=2, Zref=None):
+    """usl/lsl/gebv of a live genotype-matrix object with the model (unscale=False) + bracket + fixed clause.
+    `ploidy` is the TRUE ploidy of the population (known to the harness), not what the object reports; for an
+    unphased object `Zref` is the true dosage matrix of the population (the presence bits come from it)."""
     o = Obs()
-    mat = obj.mat
-    o.n = mat.shape[1]
+    o.kind, o.ploidy = kind, ploidy
     o.usl = model.usl(obj)
     o.lsl = model.lsl(obj)
     Z = obj.mat_asformat("{0,1,2}")
+    o.n = Z.shape[0]
     o.g = model.gebv_numpy(Z)
-    o.pres = presence(mat)
+    o.pres = presence(obj.mat) if kind == "phased" else presence_dosage(Z if Zref is None else Zref, ploidy)
     o.fixed = bool(((o.pres == 1) | (o.pres == 2)).all())
-    o.rusl, o.rlsl = attainable(model, o.pres)
-    o.bad = check_limits(model, o.usl, o.lsl, o.g, o.n, o.pres, o.fixed, "phased", "library")
+    o.rusl, o.rlsl = attainable(model, o.pres, ploidy)
+    o.bad = check_limits(model, o.usl, o.lsl, o.g, o.n, o.pres, o.fixed, kind, "library", ploidy)
     return o
 
 
-def check_limits(model, usl, lsl, g, n, pres, fixed, kind, gsrc):
+def check_limits(model, usl, lsl, g, n, pres, fixed, kind, gsrc, ploidy=2):
     t = model.u_a.shape[1]
     eps = slack(model)
-    sfx = _suffix(n, pres)
+    sfx = _suffix(n, pres, ploidy)
     for nm, v in (("usl", usl), ("lsl", lsl)):
         require(isinstance(v, numpy.ndarray) and v.shape == (t,) and bool(numpy.isfinite(v).all()), f"{MODEL}.{nm}[{kind}]:shape",
                 lambda: f"{nm} returned {v!r} for {t} traits")
@@ -242,12 +251,12 @@ def check_limits(model, usl, lsl, g, n, pres, fixed, kind, gsrc):
     if bad.any():
         k = int(numpy.flatnonzero(bad)[0])
         acc.append(Violation(f"{MODEL}.usl[{kind}]:below-max-breeding-value" + sfx,
-                             f"trait {k} (effects {model.u_a[:, k].tolist()}): usl {usl[k]!r} < max {gsrc} breeding value {gmax[k]!r}; alleles present {pres.tolist()}"))
+                             f"trait {k} (effects {model.u_a[:, k].tolist()}): usl {usl[k]!r} < max {gsrc} breeding value {gmax[k]!r} in a population of {n}; alleles present {pres.tolist()}"))
     bad = gmin < lsl - eps
     if bad.any():
         k = int(numpy.flatnonzero(bad)[0])
         acc.append(Violation(f"{MODEL}.lsl[{kind}]:above-min-breeding-value" + sfx,
-                             f"trait {k} (effects {model.u_a[:, k].tolist()}): lsl {lsl[k]!r} > min {gsrc} breeding value {gmin[k]!r}; alleles present {pres.tolist()}"))
+                             f"trait {k} (effects {model.u_a[:, k].tolist()}): lsl {lsl[k]!r} > min {gsrc} breeding value {gmin[k]!r} in a population of {n}; alleles present {pres.tolist()}"))
     if fixed:
         tol = 1e-9 * numpy.maximum(1.0, numpy.abs(g[0])) + 1e-12
         for nm, v in (("usl", usl), ("lsl", lsl)):
@@ -260,39 +269,50 @@ def check_limits(model, usl, lsl, g, n, pres, fixed, kind, gsrc):
     return acc
 
 
-def check_edge(model, po, co, how):
+_EDGE_NAMES = {
+    "": ("allele-reappeared", "increased-along-history", "decreased-along-history",
+         "descendant-above-ancestor-limit", "descendant-below-ancestor-limit", "parent population"),
+    # the population that breeds is the set of taxa NAMED in xconfig, whatever larger pool object they are indexed in
+    "named": ("allele-absent-from-named-parents", "above-limit-of-named-parents", "below-limit-of-named-parents",
+              "progeny-above-limit-of-named-parents", "progeny-below-limit-of-named-parents", "named parents"),
+}
+
+
+def check_edge(model, po, co, how, rel=""):
     """P -> P' : limits only tighten, descendants stay inside the ancestor's limits, no allele reappears.
-    Returns the list of failed clauses."""
+    Returns the list of failed clauses.  rel='named': P is the sub-population of parents named in xconfig."""
     eps = slack(model)
-    sfx = _suffix(co.n, co.pres) or _suffix(po.n, po.pres)
+    sfx = _suffix(co.n, co.pres, co.ploidy) or _suffix(po.n, po.pres, po.ploidy)
+    nm = _EDGE_NAMES[rel]
+    kd = co.kind
     acc = []
     back = (co.pres & ~po.pres) != 0
     if back.any():
-        acc.append(Violation(f"{how}:allele-reappeared", f"locus {int(numpy.flatnonzero(back)[0])}: alleles present in parent population "
+        acc.append(Violation(f"{how}:{nm[0]}", f"locus {int(numpy.flatnonzero(back)[0])}: alleles present in {nm[5]} "
                              f"{po.pres.tolist()} (1=only 0, 2=only 1, 3=both), in offspring {co.pres.tolist()}"))
     bad = co.usl > po.usl + eps
     if bad.any():
         k = int(numpy.flatnonzero(bad)[0])
-        acc.append(Violation(f"{MODEL}.usl[phased]:increased-along-history" + sfx,
+        acc.append(Violation(f"{MODEL}.usl[{kd}]:{nm[1]}" + sfx,
                              f"trait {k} effects {model.u_a[:, k].tolist()}: usl {po.usl[k]!r} (n={po.n}, presence {po.pres.tolist()}) -> "
                              f"{co.usl[k]!r} (n={co.n}, presence {co.pres.tolist()}) via {how}"))
     bad = co.lsl < po.lsl - eps
     if bad.any():
         k = int(numpy.flatnonzero(bad)[0])
-        acc.append(Violation(f"{MODEL}.lsl[phased]:decreased-along-history" + sfx,
+        acc.append(Violation(f"{MODEL}.lsl[{kd}]:{nm[2]}" + sfx,
                              f"trait {k} effects {model.u_a[:, k].tolist()}: lsl {po.lsl[k]!r} (n={po.n}, presence {po.pres.tolist()}) -> "
                              f"{co.lsl[k]!r} (n={co.n}, presence {co.pres.tolist()}) via {how}"))
     gmx, gmn = co.g.max(0), co.g.min(0)
     bad = gmx > po.usl + eps
     if bad.any():
         k = int(numpy.flatnonzero(bad)[0])
-        acc.append(Violation(f"{MODEL}.usl[phased]:descendant-above-ancestor-limit" + sfx,
-                             f"trait {k} effects {model.u_a[:, k].tolist()}: a descendant has breeding value {gmx[k]!r} > usl {po.usl[k]!r} of the ancestor population via {how}"))
+        acc.append(Violation(f"{MODEL}.usl[{kd}]:{nm[3]}" + sfx,
+                             f"trait {k} effects {model.u_a[:, k].tolist()}: a descendant has breeding value {gmx[k]!r} > usl {po.usl[k]!r} of the {nm[5]} via {how}"))
     bad = gmn < po.lsl - eps
     if bad.any():
         k = int(numpy.flatnonzero(bad)[0])
-        acc.append(Violation(f"{MODEL}.lsl[phased]:descendant-below-ancestor-limit" + sfx,
-                             f"trait {k} effects {model.u_a[:, k].tolist()}: a descendant has breeding value {gmn[k]!r} < lsl {po.lsl[k]!r} of the ancestor population via {how}"))
+        acc.append(Violation(f"{MODEL}.lsl[{kd}]:{nm[4]}" + sfx,
+                             f"trait {k} effects {model.u_a[:, k].tolist()}: a descendant has breeding value {gmn[k]!r} < lsl {po.lsl[k]!r} of the {nm[5]} via {how}"))
     return acc
 
 
@@ -554,14 +574,18 @@ def expand(ctx, pop, seed, nmax, level, only=None):
     ctx.count(f"E:expanded-states:n{len(pop)}")
     ppat = tuple(po.pres.tolist())
 
-    def edge(child, how, case):
+    def edge(child, how, case, named=None):
         ctx.evaluations += 1
         cbox = {}
 
         def body():
             co = observe(wide, child)
             cbox["co"] = co
-            _raise(co.bad + check_edge(wide, po, co, how))
+            acc = co.bad + check_edge(wide, po, co, how)
+            if named is not None:
+                acc += check_edge(wide, named, co, how, rel="named")
+                ctx.count("named-parent-edges")
+            _raise(acc)
         ok = guard(ctx, body, case, f"{how}:")
         co = cbox.get("co")
         if co is None:
@@ -611,6 +635,9 @@ def expand(ctx, pop, seed, nmax, level, only=None):
                 ctx.count("exec:select_taxa")
     # (2) selection of parents x mating event x every answer
     for S in parent_sets(pop):
+        # the breeding population of these events is the set of taxa named in xconfig; the pool object passed to
+        # mate() is the whole population (indices of S point anywhere into it, incl. the highest ones)
+        named = observe(wide, make_pg(pop_mat([pop[i] for i in S]), seed)) if len(S) < len(pop) else None
         for ei, ev in enumerate(events(len(S), nmax, level)):
             if only is not None and only[:3] != ("mate", list(S), ei):
                 continue
@@ -620,7 +647,7 @@ def expand(ctx, pop, seed, nmax, level, only=None):
                 it = run_event(pg, ev, S, seed, answers=(only[3] if only is not None else None))
                 for ch, child in it:
                     ctx.transitions += 1
-                    edge(child, f"{proto}.mate", dict(case0, answers=_trim(ch.taken)))
+                    edge(child, f"{proto}.mate", dict(case0, answers=_trim(ch.taken)), named)
                     ctx.count(f"exec:{proto}")
                     if ch.deviations:
                         ctx.flag("answers:crossover")
@@ -686,9 +713,12 @@ def run_history(ctx, founder, depth, seed):
             pool = state.select_taxa(list(S))
             ctx.transitions += 1
             rel = tuple(range(len(S)))
+            named = observe(wide, make_pg(pop_mat([genos[i] for i in S]), seed)) if len(S) < n else None
             for ei, ev in enumerate(events(len(S), nmax, "L")):
                 proto = ev[0]
-                for ch, child in run_event(pool, ev, rel, seed):
+                # selection expressed either by select_taxa (even events) or by xconfig on the whole pool (odd events)
+                it = run_event(pool, ev, rel, seed) if _via_select(ei) else run_event(state, ev, tuple(S), seed)
+                for ch, child in it:
                     ctx.transitions += 1
                     ctx.evaluations += 1
                     rec = (tuple(S), ei, proto, tuple(_trim(ch.taken)))
@@ -701,6 +731,8 @@ def run_history(ctx, founder, depth, seed):
                         acc = co.bad + check_edge(wide, po, co, f"{proto}.mate")
                         if len(h) > 0:
                             acc += check_edge(wide, fo, co, f"{proto}.mate")    # cumulative: against the founder
+                        if named is not None:
+                            acc += check_edge(wide, named, co, f"{proto}.mate", rel="named")
                         _raise(acc)
                     ok = guard(ctx, body, case, f"{proto}.mate:")
                     if "co" not in cbox:
@@ -736,13 +768,20 @@ def run_history(ctx, founder, depth, seed):
     ctx.flag(f"H:depth{maxd}")
 
 
+def _via_select(ei):
+    return ei % 2 == 0
+
+
 def replay_history(founder, h, seed):
     st = make_pg(pop_mat(founder), seed)
     for (S, ei, proto, answers) in h:
-        pool = st.select_taxa(list(S))
         ev = events(len(S), 4, "L")[ei]
         assert ev[0] == proto
-        (_, st), = list(run_event(pool, ev, tuple(range(len(S))), seed, answers=list(answers)))
+        if _via_select(ei):
+            pool = st.select_taxa(list(S))
+            (_, st), = list(run_event(pool, ev, tuple(range(len(S))), seed, answers=list(answers)))
+        else:
+            (_, st), = list(run_event(st, ev, tuple(S), seed, answers=list(answers)))
     return st
 
 
@@ -870,6 +909,273 @@ def run_sweep(ctx, ns, seed, only=None):
 
 
 # ----------------------------------------------------------------------------
+# layer R: every public route to a sub-population ("all selection rules"), phased and unphased, ploidy 1, 2, 4
+ROUTES = ("select_taxa", "delete_taxa", "select(axis)", "delete(axis)", "select(axis<0)", "concat_taxa", "concat(axis)",
+          "adjoin_taxa", "adjoin(axis)", "remove_taxa", "remove(axis)", "append_taxa", "copy+delete_taxa",
+          "deepcopy+select_taxa")
+
+
+def take_route(obj, name, keep, drop):
+    """The sub-population of taxa `keep` (increasing indices) of `obj`, obtained through one public route."""
+    import copy
+    ax = obj.taxa_axis
+    cls = type(obj)
+    h = max(1, len(keep) // 2)
+    a, b = list(keep[:h]), list(keep[h:])
+    if name == "select_taxa":
+        return obj.select_taxa(list(keep))
+    if name == "delete_taxa":
+        return obj.delete_taxa(list(drop))
+    if name == "select(axis)":
+        return obj.select(list(keep), axis=ax)
+    if name == "delete(axis)":
+        return obj.delete(list(drop), axis=ax)
+    if name == "select(axis<0)":
+        return obj.select(list(keep), axis=ax - obj.mat.ndim)
+    if name == "concat_taxa":
+        return cls.concat_taxa([obj.select_taxa([i]) for i in keep])
+    if name == "concat(axis)":
+        return cls.concat([obj.select_taxa(a)] + ([obj.select_taxa(b)] if b else []), axis=ax)
+    if name == "adjoin_taxa":
+        return obj.select_taxa(a).adjoin_taxa(obj.select_taxa(b)) if b else None
+    if name == "adjoin(axis)":
+        return obj.select_taxa(a).adjoin(obj.select_taxa(b), axis=ax) if b else None
+    if name == "remove_taxa":
+        c = copy.deepcopy(obj)
+        c.remove_taxa(list(drop))
+        return c
+    if name == "remove(axis)":
+        c = copy.deepcopy(obj)
+        c.remove(list(drop), axis=ax)
+        return c
+    if name == "append_taxa":
+        if not b:
+            return None
+        c = obj.select_taxa(a)
+        c.append_taxa(obj.select_taxa(b))
+        return c
+    if name == "copy+delete_taxa":
+        return copy.copy(obj).delete_taxa(list(drop))
+    if name == "deepcopy+select_taxa":
+        return copy.deepcopy(obj).select_taxa(list(keep))
+    raise KeyError(name)
+
+
+R_KINDS = (("G", 4), ("G", 1), ("G", 2), ("P", 2))
+
+
+def r_individuals(cls, ploidy, m=2):
+    if cls == "P":
+        return individuals(m)
+    return list(itertools.product(range(ploidy + 1), repeat=m))       # dosage vectors 0..ploidy
+
+
+def r_universe(cls, ploidy, nmax):
+    inds = r_individuals(cls, ploidy)
+    out = []
+    for n in range(2, nmax + 1):
+        for comb in itertools.combinations_with_replacement(range(len(inds)), n):
+            out.append(tuple(inds[i] for i in comb))
+    return out
+
+
+def r_nmax(tier):
+    return 4 if tier == "thorough" else 3
+
+
+def r_object(cls, ploidy, pop, seed):
+    """(object, true dosage matrix Z (n,m), kind tag)"""
+    L = lib()
+    n = len(pop)
+    if cls == "P":
+        mat = pop_mat(pop)
+        return make_pg(mat, seed), mat.sum(0, dtype="int8"), "phased"
+    Z = numpy.array(pop, dtype="int8").reshape(n, -1)
+    obj = L["G"](Z.copy(), taxa=numpy.array([f"u{i}" for i in range(n)], dtype=object),
+                 taxa_grp=numpy.zeros(n, dtype="int64"), ploidy=ploidy)
+    return obj, Z, f"unphased,ploidy{ploidy}"
+
+
+def gebv_ref_dosage(Z, U):
+    out = numpy.empty((Z.shape[0], U.shape[1]), dtype="float64")
+    cols = [[Fraction(float(U[j, k])) for j in range(U.shape[0])] for k in range(U.shape[1])]
+    for i, row in enumerate(Z.tolist()):
+        for k, u in enumerate(cols):
+            out[i, k] = float(sum((Fraction(int(z)) * uj for z, uj in zip(row, u)), Fraction(0)))
+    return out
+
+
+def run_routes(ctx, cls, ploidy, pops, seed, only=None):
+    m = 2
+    wide, _, U = models(m, seed)
+    cname = "DensePhasedGenotypeMatrix" if cls == "P" else "DenseGenotypeMatrix"
+    for pop in pops:
+        n = len(pop)
+        base = dict(layer="R", cls=cls, ploidy=ploidy, pop=[list(map(list, i)) if cls == "P" else list(i) for i in pop], seed=seed)
+        obj, Z, kind = r_object(cls, ploidy, pop, seed)
+        mat0 = obj.mat.copy()
+        box = {}
+
+        def pbody():
+            box["o"] = observe(wide, obj, kind, ploidy, Zref=Z)
+            _raise(box["o"].bad + check_limits(wide, box["o"].usl, box["o"].lsl, gebv_ref_dosage(Z, U), n, box["o"].pres,
+                                               box["o"].fixed, kind, "reference", ploidy))
+        guard(ctx, pbody, dict(base, what="state"), f"{MODEL}.usl-lsl[{kind}]:")
+        ctx.count(f"R:populations:{cls}{ploidy}")
+        ctx.state(digest(("R", cls, ploidy, pop)))
+        if "o" not in box:
+            continue
+        po = box["o"]
+        seen = set()
+        for k in range(1, n):
+            for keep in itertools.combinations(range(n), k):
+                gk = tuple(pop[i] for i in keep)
+                if gk in seen:
+                    continue
+                seen.add(gk)
+                drop = tuple(i for i in range(n) if i not in keep)
+                Zs = Z[list(keep)]
+                d = ploidy * k
+                af_ref = numpy.array([float(Fraction(int(c), d)) for c in Zs.sum(0).tolist()])
+                gref = gebv_ref_dosage(Zs, U)
+                exp_mat = mat0[:, list(keep), :] if cls == "P" else mat0[list(keep), :]
+                for rname in ROUTES:
+                    if only is not None and only != (list(keep), rname):
+                        continue
+                    case = dict(base, what="route", keep=list(keep), route=rname)
+                    how = f"{cname}.{rname}"
+                    cbox = {}
+
+                    def body():
+                        X = take_route(obj, rname, keep, drop)
+                        if X is None:
+                            return
+                        cbox["ran"] = True
+                        ctx.transitions += 1
+                        acc = []
+                        require(type(X) is type(obj), f"{how}:type", lambda: f"returned {type(X).__name__}")
+                        require(X.mat.shape == exp_mat.shape and bool(numpy.array_equal(X.mat, exp_mat)), f"{how}:survivors",
+                                lambda: f"kept taxa {list(keep)} of {mat0.tolist()}: got {X.mat.tolist()}")
+                        if X.ploidy != ploidy:
+                            acc.append(Violation(f"{how}:ploidy-not-preserved", f"sub-population of a ploidy-{ploidy} population reports ploidy {X.ploidy}"))
+                        af = X.afreq()
+                        if not bool(((af >= 0.0) & (af <= 1.0)).all()):
+                            acc.append(Violation(f"{how}:afreq-outside-unit-interval", f"afreq {af.tolist()} of survivors {Zs.tolist()} (ploidy {ploidy})"))
+                        elif not bool(numpy.allclose(af, af_ref, rtol=1e-9, atol=1e-12)):
+                            acc.append(Violation(f"{how}:afreq-value", f"afreq {af.tolist()} expected {af_ref.tolist()}"))
+                        co = observe(wide, X, kind, ploidy, Zref=Zs)
+                        cbox["co"] = co
+                        acc += co.bad
+                        acc += check_limits(wide, co.usl, co.lsl, gref, k, co.pres, co.fixed, kind, "reference", ploidy)
+                        acc += check_edge(wide, po, co, how)
+                        if not numpy.array_equal(obj.mat, mat0):
+                            acc.append(Violation(f"{how}:input-mutated", "the population object changed"))
+                        _raise(acc)
+                    ctx.evaluations += 1
+                    ok = guard(ctx, body, case, f"{how}:")
+                    if cbox.get("ran"):
+                        ctx.count(f"R:route:{rname}")
+                        if ok:
+                            ctx.traces += 1
+                    co = cbox.get("co")
+                    if co is not None:
+                        ctx.outcome(digest((cls, ploidy, gk, co.usl[:6], co.lsl[:6])))
+                        if co.fixed:
+                            ctx.flag("R:fixed-survivors")
+                        if not po.fixed:
+                            ctx.nontriv(digest(("R", cls, ploidy, pop, gk)))
+                        if (co.rusl < po.rusl - 1e-9).any():
+                            ctx.flag("R:usl-decreased")
+
+
+# ----------------------------------------------------------------------------
+# layer G: geometric family of large populations
+def big_sizes(tier):
+    """2^k - 1, 2^k, 2^k + 1 for k <= 17 (up to 131 073 diploids) beyond the contiguous sweep: one copy short of
+    fixation is then within 4e-6 of frequency 1, the regime in which tolerance-based comparisons misjudge fixation."""
+    N = sweep_N(tier)
+    return sorted({n for k in range(1, 18) for n in (2 ** k - 1, 2 ** k, 2 ** k + 1) if n > N})
+
+
+G_PATTERNS = ("fixed", "one", "two")
+
+
+def run_big(ctx, ns, seed, only=None):
+    L = lib()
+    model, U = s_model(seed)
+    m = 4
+    for n in ns:
+        ctx.count("G:sizes")
+        if n >= 65535:
+            ctx.flag("G:size>=65535")
+        tstar = (0, n - 1, n // 2)[seed % 3]
+        t2 = (tstar + 1) % n
+        for fi, hap in enumerate(S_FIXED):
+            j = fi % m
+            other = 1 - hap[j]
+            for pat in G_PATTERNS:
+                if only is not None and only != (fi, pat):
+                    continue
+                mat = numpy.empty((2, n, m), dtype="int8")
+                mat[:] = numpy.array(hap, dtype="int8")
+                genos = {(hap, hap)}
+                carrier = None
+                if pat != "fixed":
+                    mat[0, tstar, j] = other                     # the carrier: rare allele on copy 0
+                    hc = tuple(other if q == j else v for q, v in enumerate(hap))
+                    carrier = (hc, hap)
+                    genos.add(carrier)
+                    if pat == "two":
+                        mat[1, t2, j] = other
+                        genos.add((hap, hc))
+                pres = numpy.array([1 if v == 0 else 2 for v in hap], dtype="int8")
+                if pat != "fixed":
+                    pres[j] = 3
+                fixed = pat == "fixed"
+                assert bool((presence(mat) == pres).all())
+                gref = gebv_reference(tuple(sorted(genos)), U)          # breeding values of the distinct genotypes
+                pg = make_pg(mat, seed, labels=False)
+                Z = mat.sum(0, dtype="int8")
+                ug = L["G"](Z.copy(), ploidy=2)
+                case = dict(layer="G", n=n, fi=fi, pattern=pat, seed=seed)
+                ctx.evaluations += 1
+
+                def body():
+                    acc = []
+                    g = model.gebv_numpy(Z)
+                    for kind, obj in (("phased", pg), ("unphased", ug), ("ndarray", Z)):
+                        usl, lsl = model.usl(obj), model.lsl(obj)
+                        ctx.transitions += 2
+                        acc += check_limits(model, usl, lsl, g, n, pres, fixed, kind, "library")
+                        acc += check_limits(model, usl, lsl, gref, n, pres, fixed, kind, "reference")
+                        if not fixed:
+                            uj = numpy.abs(model.u_a[j]) > 0
+                            if not bool(((usl - lsl)[uj] > 0).all()):
+                                acc.append(Violation(f"{MODEL}.usl-lsl[{kind}]:equal-at-polymorphic-population" + _suffix(n, pres),
+                                                     f"n = {n}, locus {j} carries {1 if pat == 'one' else 2} cop(ies) of the other allele "
+                                                     f"(effects {model.u_a[j].tolist()}) but usl {usl.tolist()} = lsl {lsl.tolist()}"))
+                    uslU, lslU = model.usl(pg, unscale=True), model.lsl(pg, unscale=True)
+                    acc += check_limits(model, uslU, lslU, model.gebv(pg).unscale(), n, pres, fixed, "phased,unscale", "library")
+                    if carrier is not None:
+                        # edge to a small offspring population derived from the carrier (selfed, 2 progeny, no crossover):
+                        # both progeny are homozygous for the carrier's copy 0, i.e. for the rare allele
+                        po = observe(model, pg)
+                        prot = L["SelfCross"](rng=ScriptedGenerator(NoCrossover(pg.vrnt_xoprob.tolist())))
+                        child = prot.mate(pg, numpy.array([[tstar]], dtype="int64"), 1, 2)
+                        ctx.transitions += 1
+                        co = observe(model, child)
+                        acc += co.bad + check_edge(model, po, co, "SelfCross.mate")
+                        sub = observe(model, pg.select_taxa([tstar, t2] if t2 != tstar else [tstar]))
+                        acc += sub.bad + check_edge(model, po, sub, "select_taxa")
+                    _raise(acc)
+                if guard(ctx, body, case, f"{MODEL}.usl-lsl[phased]:"):
+                    ctx.traces += 1
+                ctx.outcome(digest(("G", fi, pat)))
+        ctx.state(digest(("G", n)))
+        ctx.nontriv(digest(("G", n)))
+
+
+# ----------------------------------------------------------------------------
 def e_plan(tier):
     """[(m, expand populations up to n, offspring nmax, level)]"""
     if tier == "thorough":
@@ -897,6 +1203,14 @@ def shards(tier, seed):
     K = 24 if tier == "thorough" else 8
     for k in range(K):
         out.append(("S", tuple(n for n in range(1, N + 1) if n % K == k)))
+    for (cls, ploidy) in R_KINDS:
+        pops = r_universe(cls, ploidy, r_nmax(tier))[::-1]
+        K = max(1, min(48, len(pops) // (600 if tier == "thorough" else 280)))
+        for k in range(K):
+            out.append(("R", cls, ploidy, tuple(pops[k::K])))
+    big = big_sizes(tier)
+    for k in range(6):
+        out.append(("G", tuple(big[k::6])))
     return out
 
 
@@ -908,7 +1222,9 @@ def run_shard(spec, ctx):
                        "H_depth": "thorough: 3 from four 1-individual founders (incl. both double heterozygotes), 2 from the other 1-individual, "
                                   "every second 2-individual and the 3-individual founders, 1 from the rest; quick: 2 from all 1-individual and every "
                                   "tenth 2-individual founder, 1 from the 3-individual founders",
-                       "effects": list(effects(ctx.seed)), "xoprob_q": q_value(ctx.seed)})
+                       "effects": list(effects(ctx.seed)), "xoprob_q": q_value(ctx.seed),
+                       "R_kinds(class, ploidy)": [list(k) for k in R_KINDS], "R_population_size_max": r_nmax(ctx.tier),
+                       "R_routes": list(ROUTES), "G_big_sizes": big_sizes(ctx.tier), "G_patterns": list(G_PATTERNS)})
     if spec[0] == "E":
         _, m, nmax, level, pops = spec
         for pop in pops:
@@ -916,6 +1232,10 @@ def run_shard(spec, ctx):
     elif spec[0] == "H":
         for founder, depth in spec[1]:
             run_history(ctx, founder, depth, ctx.seed)
+    elif spec[0] == "R":
+        run_routes(ctx, spec[1], spec[2], spec[3], ctx.seed)
+    elif spec[0] == "G":
+        run_big(ctx, spec[1], ctx.seed)
     else:
         run_sweep(ctx, spec[1], ctx.seed)
 
@@ -948,6 +1268,14 @@ def finalize(ctx, tier, seed):
     assert c.get("H:founders", 0) == len(h_founders(tier, seed))
     assert c.get("H:histories-replayed", 0) > 100
     assert len(ctx.outcomes) > 100, len(ctx.outcomes)
+    for r in ROUTES:
+        assert c.get(f"R:route:{r}", 0) > 0, r
+    for (cls, ploidy) in R_KINDS:
+        assert c.get(f"R:populations:{cls}{ploidy}", 0) == len(r_universe(cls, ploidy, r_nmax(tier))), (cls, ploidy)
+    for f in ("R:fixed-survivors", "R:usl-decreased", "G:size>=65535"):
+        assert f in ctx.flags, f
+    assert c.get("G:sizes", 0) == len(big_sizes(tier))
+    assert c.get("named-parent-edges", 0) > 0
 
 
 def replay(case, ctx):
@@ -982,7 +1310,19 @@ def replay(case, ctx):
             acc = co.bad + check_edge(wide, po, co, f"{h[-1][2]}.mate")
             if len(h) > 1:
                 acc += check_edge(wide, fo, co, f"{h[-1][2]}.mate")
+            S = h[-1][0]
+            if len(S) < parent.mat.shape[1]:
+                genos = mat_pop(parent.mat, sort=False)
+                named = observe(wide, make_pg(pop_mat([genos[i] for i in S]), seed))
+                acc += check_edge(wide, named, co, f"{h[-1][2]}.mate", rel="named")
             _raise(acc)
         guard(ctx, body, case, f"{h[-1][2]}.mate:")
+    elif lay == "R":
+        cls, ploidy = case["cls"], case["ploidy"]
+        pop = tuple(tuple(tuple(h) for h in ind) if cls == "P" else tuple(ind) for ind in case["pop"])
+        only = (list(case["keep"]), case["route"]) if case.get("what") == "route" else ([], "none")
+        run_routes(ctx, cls, ploidy, [pop], seed, only=only)
+    elif lay == "G":
+        run_big(ctx, [case["n"]], seed, only=(case["fi"], case["pattern"]))
     else:
         run_sweep(ctx, [case["n"]], seed, only=case["sub"])
